@@ -25,15 +25,36 @@ def tag(task_slug, params, inputs):
 
 
 def norm_input(v):
-    """What a consumer sees of an upstream value: directory results by the content of their out.json, lazily
-    generated ones as lists."""
+    """What a consumer sees of an upstream value, as plain comparable data: directory results by the content of
+    their out.json, lazily generated ones as lists, arrays and frames as nested lists with dtype and shape."""
     if hasattr(v, 'joinpath') or hasattr(v, 'parts'):
         import taskchain.data as _D
         with (v / 'out.json').open() as f:
             return _D.json.load(f)
     if callable(v):
         return list(v())
+    tn = type(v).__name__
+    if tn == 'ndarray':
+        return {'nd': v.tolist(), 'dtype': str(v.dtype), 'shape': list(v.shape)}
+    if tn == 'DataFrame':
+        return {'df': v.to_dict(orient='list'), 'index': list(v.index)}
+    if isinstance(v, list) and v and type(v[0]).__name__ == 'ndarray':
+        return [norm_input(x) for x in v]
     return v
+
+
+def _size(raw):
+    return len(repr(raw))
+
+
+def np_of(raw, k=0):
+    import numpy as np
+    return np.array([_size(raw), 7, 9 + k], dtype='int64')
+
+
+def df_of(raw):
+    import pandas as pd
+    return pd.DataFrame({'a': [_size(raw), 1], 'b': ['x', 'y']})
 
 
 def visible(data, raw):
@@ -46,6 +67,14 @@ def visible(data, raw):
         return [raw]
     if data == 'str':
         return repr(raw)
+    if data == 'lazy':
+        return [{'k': k, 'v': raw} for k in range(3)]
+    if data == 'npy':
+        return norm_input(np_of(raw))
+    if data == 'listnpy':
+        return [norm_input(np_of(raw, k)) for k in range(3)]
+    if data == 'pd':
+        return norm_input(df_of(raw))
     return raw
 
 
@@ -92,12 +121,18 @@ def make_pipeline(spec, module='ref.family_gen'):
             meta['name'] = t['meta_name']
         data = t.get('data', 'json')
         pnames = [p['name'] for p in t.get('params', [])]
-        ret = {'json': dict, 'mem': dict, 'dir': DirData, 'cont': ContinuesData, 'gen': typing.Generator, 'gen0': typing.Generator,
+        import numpy as _np
+        import pandas as _pd
+        from taskchain.data import ListOfNumpyData
+        if data == 'listnpy':
+            meta['data_class'] = ListOfNumpyData
+        ret = {'npy': _np.ndarray, 'listnpy': list, 'pd': _pd.DataFrame, 'json': dict, 'mem': dict, 'dir': DirData, 'cont': ContinuesData, 'gen': typing.Generator, 'gen0': typing.Generator,
                'lazy': GeneratedDataLazy, 'list': list, 'str': str, 'int': int}[data]
         if data == 'mem':
             meta['data_class'] = InMemoryData
         body = _make_run(name, pnames, data, t.get('access', 'registry'))
-        ns = {'_tag': tag, '_RUNLOG': RUNLOG, '_FAIL': FAIL, '_ret': ret, '_norm_input': norm_input}
+        ns = {'_tag': tag, '_RUNLOG': RUNLOG, '_FAIL': FAIL, '_ret': ret, '_norm_input': norm_input,
+              '_np_of': np_of, '_df_of': df_of}
         exec(body, ns)
         run = ns['run']
         run.__annotations__['return'] = ret
@@ -148,6 +183,37 @@ def run({args}):
                 '            if f3 is not None: f3(self, k)\n'
                 '            yield {"k": k, "v": value}\n'
                 '    return g()\n')
+    elif data == 'npy':
+        src += '    return _np_of(value)\n'
+    elif data == 'listnpy':
+        src += '    return [_np_of(value, k) for k in range(3)]\n'
+    elif data == 'pd':
+        src += '    return _df_of(value)\n'
+    elif data == 'lazy':
+        src += ('    d = self.get_data_object()\n'
+                '    def g():\n'
+                '        for k in range(3):\n'
+                '            f3 = _FAIL.get(self.slugname + "/item")\n'
+                '            if f3 is not None: f3(self, k)\n'
+                '            yield {"k": k, "v": value}\n'
+                '    d.set_value(g)\n'
+                '    return d\n')
+    elif data == 'cont':
+        src += ('    d = self.get_data_object()\n'
+                '    import taskchain.data as _D\n'
+                '    for k in range(2):\n'
+                '        p = d.dir / ("part%d.json" % k)\n'
+                '        if not p.exists():\n'
+                '            h = p.open("w")\n'
+                '            _D.json.dump({"k": k, "v": value}, h)\n'
+                '            h.close()\n'
+                '        f2 = _FAIL.get(self.slugname + "/late")\n'
+                '        if f2 is not None: f2(self)\n'
+                '    h = (d.dir / "out.json").open("w")\n'
+                '    _D.json.dump(value, h)\n'
+                '    h.close()\n'
+                '    d.finished()\n'
+                '    return d\n')
     elif data == 'gen0':
         src += ('    def g():\n'
                 '        return\n'
